@@ -127,3 +127,41 @@ package v4
 //@ -- flags2/3/4 are shared between the v4 and v6 value layouts
 //@ layout VoFlags234V6: VoFlags2 == coffsetof6("struct calico_ct_value", "flags2") && VoFlags3 == coffsetof6("struct calico_ct_value", "flags3") && VoFlags4 == coffsetof6("struct calico_ct_value", "flags4")
 //@   property C13
+
+//@ -- Key accessors read the bytes where the kernel's struct calico_ct_key keeps the field (little-endian host order)
+//@ func (Key).Proto
+//@   property C13
+//@   ensures res == k[coffsetof("struct calico_ct_key", "protocol")]
+//@   assigns nothing
+//@ func (Key).PortA
+//@   property C13
+//@   ensures res == uint16(k[coffsetof("struct calico_ct_key", "port_a")]) | uint16(k[coffsetof("struct calico_ct_key", "port_a") + 1]) << 8
+//@   assigns nothing
+//@ func (Key).PortB
+//@   property C13
+//@   ensures res == uint16(k[coffsetof("struct calico_ct_key", "port_b")]) | uint16(k[coffsetof("struct calico_ct_key", "port_b") + 1]) << 8
+//@   assigns nothing
+//@ func (KeyV6).Proto
+//@   property C13
+//@   ensures res == k[coffsetof6("struct calico_ct_key", "protocol")]
+//@   assigns nothing
+//@ func (KeyV6).PortA
+//@   property C13
+//@   ensures res == uint16(k[coffsetof6("struct calico_ct_key", "port_a")]) | uint16(k[coffsetof6("struct calico_ct_key", "port_a") + 1]) << 8
+//@   assigns nothing
+//@ func (KeyV6).PortB
+//@   property C13
+//@   ensures res == uint16(k[coffsetof6("struct calico_ct_key", "port_b")]) | uint16(k[coffsetof6("struct calico_ct_key", "port_b") + 1]) << 8
+//@   assigns nothing
+//@ -- Value accessors (selection): the timestamps the cleaner compares, the entry type
+//@ func (Value).LastSeen
+//@   property C13
+//@   ensures uint64(res) == uint64(e[coffsetof("struct calico_ct_value", "last_seen")]) | uint64(e[coffsetof("struct calico_ct_value", "last_seen") + 1]) << 8
+//@        | uint64(e[coffsetof("struct calico_ct_value", "last_seen") + 2]) << 16 | uint64(e[coffsetof("struct calico_ct_value", "last_seen") + 3]) << 24
+//@        | uint64(e[coffsetof("struct calico_ct_value", "last_seen") + 4]) << 32 | uint64(e[coffsetof("struct calico_ct_value", "last_seen") + 5]) << 40
+//@        | uint64(e[coffsetof("struct calico_ct_value", "last_seen") + 6]) << 48 | uint64(e[coffsetof("struct calico_ct_value", "last_seen") + 7]) << 56
+//@   assigns nothing
+//@ func (Value).Type
+//@   property C13
+//@   ensures res == e[coffsetof("struct calico_ct_value", "type")]
+//@   assigns nothing
